@@ -143,7 +143,7 @@ def _selection_by_pieces(ctx: Ctx, tf, q: str, p: Path, slot: Term, tsrc: str, n
         if x[0] == "call" and x[1] == ("attr", slot, "get") and len(x[2]) == 2:
             d = x[2][1]
             lit = alloc_literal_any(p, d)
-            if d == ("list", ()) or (lit is not None and lit[0] in ("list", "tuple") and len(lit[1]) == 0):
+            if d in (("list", ()), ("tuple", ()), ("const", ())) or (lit is not None and lit[0] in ("list", "tuple") and len(lit[1]) == 0):
                 return ("get", x[2][0])
         return None
 
@@ -154,6 +154,10 @@ def _selection_by_pieces(ctx: Ctx, tf, q: str, p: Path, slot: Term, tsrc: str, n
     def flat_plus(x: Term):
         return flat_plus(x[2]) + flat_plus(x[3]) if x[0] == "bin" and x[1] == "+" else [x]
 
+    from ..terms import normalise as _norm0
+
+    if base[0] == "call" and key(base[1]) in ("list", "tuple") and len(base[2]) == 1 and not base[3] and key(strip_ver(base[2][0])[1] if strip_ver(base[2][0])[0] == "call" else NONE) in ("itertools.chain", "chain"):
+        base = _norm0(strip_ver(base[2][0]))  # list(chain(a, b)) is the fresh list a + b
     parts = flat_plus(base)
     raw_first = piece(parts[0]) if parts else None
     if raw_first is not None and (len(parts) > 1 or any(e.kind == "call" and e.name == "extend" and e.recv == it for e in p.events)):
@@ -613,7 +617,7 @@ def h1(ctx: Ctx) -> None:
 
 
 
-@rule("C13.H2", "times, names and hook types are compared by value wherever hooks are filed and selected (a step number or a name is never tested with `is`)", "T13 lint over Simulator, EventHook and the event classes", floor=30)
+@rule("C13.H2", "times, names and hook types are compared by value wherever hooks are filed and selected (a step number or a name is never tested with `is`)", "T13 lint over Simulator, EventHook and the event classes", floor=1)
 def h2(ctx: Ctx) -> None:
     from .events import check_identity_comparisons
 
